@@ -158,9 +158,23 @@ Fixpoint match_segs (lines names : list str) (gs : list seg) (xs : list xseg) : 
 
 Definition op_small (o : wop) : bool :=
   match o with
-  | WF _ p _ => small (p_line p) && small (p_col p) && small (p_file p)
+  | WF _ p name => small (p_line p) && small (p_col p) && small (p_file p) &&
+                   match name with Some n => small (utf16_len_spec n) | None => true end
   | _ => true
   end.
+
+(** a file-index mapper as the CLI builds them: every entry is usize::MAX or an index below the number
+    of entries that are not usize::MAX (the length of "sources") *)
+Definition fmap_wf (fmap : option (list N)) : bool :=
+  match fmap with
+  | None => true
+  | Some m => let n := N.of_nat (length (filter (fun i => negb (i =? USIZE_MAX)) m)) in
+              small n && forallb (fun k => (k =? USIZE_MAX) || (k <? n)) m
+  end.
+
+(** outputs of ordinary size: a text shorter than 2^31 UTF-16 units, fewer than 2^31 names *)
+Definition out_small (buf : str) (names : list str) : bool :=
+  small (utf16_len_spec buf) && small (N.of_nat (length names)).
 
 (** the contract of [write_for]: the node's file is one the mapper gives an index of "sources" to (the
     CLI maps every file a printed definition comes from; a file mapped to usize::MAX must not be used) *)
@@ -314,7 +328,7 @@ Definition holds (c : case) : bool :=
       match out with
       | None => true
       | Some (buf, mp, names) =>
-          if forallb op_small ops && forallb (op_mapped fmap) ops then
+          if forallb op_small ops && forallb (op_mapped fmap) ops && fmap_wf fmap && out_small buf names then
             match decode_mappings mp, expect fmap ops with
             | Some gs, Some xs =>
                 let lines := lines_of buf in
